@@ -1,11 +1,13 @@
 CHECK = {
     "suites": [suite("calls", "c04", 250, 20000, stdin=True),
                suite("conc", "c04", 400, 20000, stdin=True, args=["-suite", "conc"])],
-    "gen": [{"pkg": "extract_c04", "out": "lean/ClusterVerif/Gen/C04.lean"}],
+    "gen": [{"pkg": "extract_c04", "out": "lean/ClusterVerif/Gen/C04.lean"},
+            {"pkg": "extract_c04sem", "out": "lean/ClusterVerif/Gen/C04Sem.lean"}],
     "lean_sources": ["ClusterVerif/Model/C04Source.lean", "ClusterVerif/Gen/C04.lean", "ClusterVerif/Model/Pin.lean", "ClusterVerif/Model/C04.lean", "ClusterVerif/Spec/C04.lean",
                      "ClusterVerif/Model/C03.lean", "ClusterVerif/Spec/C03.lean", "ClusterVerif/Lemmas/C04.lean",
                      "ClusterVerif/Model/C04Faults.lean", "ClusterVerif/Spec/C04Conc.lean", "ClusterVerif/Lemmas/C04Faults.lean",
-                     "ClusterVerif/Model/C04Rpc.lean", "ClusterVerif/Lemmas/C04Rpc.lean"],
+                     "ClusterVerif/Model/C04Rpc.lean", "ClusterVerif/Lemmas/C04Rpc.lean",
+                     "ClusterVerif/Model/C04Sem.lean", "ClusterVerif/Gen/C04Sem.lean", "ClusterVerif/Lemmas/C04Sem.lean"],
     "rule": "histories of 4-25 Pin/PinPath/PinUpdate/Unpin/UnpinPath/rpc-pin calls over 12 CIDs (6 data, a sharded group), options drawn or derived "
             "from the stored pin with one field changed/added/removed, 5 default-factor settings, follower on/off, preloaded pinsets; every call is one case "
             "with its explicit pre-state; a trailing !k makes the k-th consensus call of the API call fail; paths to meta / cluster-DAG / shard pins and unresolved paths; "
@@ -16,6 +18,7 @@ CHECK = {
     "trusted_base": ["FakeConsensus = real dsstate over an in-memory datastore applying LogPin/LogUnpin directly",
                      "table-driven IPFS connector for Resolve/BlockGet; metrics.Store monitor; verif_export.go (VerifNewCluster, VerifPin)",
                      "gorpc in-process call path (destination \"\": no serialisation, no authorisation) in front of the real ClusterRPCAPI; extract_c04's go/ast reader of rpc_api.go (fail-closed: unknown shape = table entry '?')",
+                     "extract_c04sem's statement recogniser for cluster.go (go/ast shapes + canonical local names; a statement of no known shape = .unknown = the interpreter answers none = diff + failed obligation gen_sem_programs)",
                      "FaultConsensus: a failing LogPin/LogUnpin is not applied (fail-then-commit is not modelled); the gate interleaves at the granularity read-phase / consensus calls"],
     "assumptions": ["the empty metadata key is not a real option (never serialised in requests)",
                     "user allocations are transient (never stored), so a re-pin that carries them is not 'identical'"],
@@ -31,8 +34,13 @@ META = {
             "(failed_call_is_noop_full_fails: known finding K41, replayed on the implementation); two overlapping calls as read/write phases under all six interleavings: last_writer_wins_wellformed."
             " Round 8: the RPC layer of rpc_api.go (Pin, Unpin, PinPath, UnpinPath, PinGet, Pins) is regenerated from go/ast into a table (callee, argument expressions, returned value, error propagation) that the Lean model INTERPRETS; "
             "rpc_layer_is_passthrough / rpc_step_holds / rpc_run_holds: every writing RPC call performs exactly the Cluster operation the request means (a plain data pin sent to Cluster.Pin is the user-facing Pin and is held to the option clauses; Unpin uses the cid only; PinPath hands on path and options) and satisfies every clause along any call sequence; "
-            "two wrong layers refuted with witnesses (options dropped by PinPath; Pin routed through the public Pin); the harness sends the same requests through the real ClusterRPCAPI.",
+            "two wrong layers refuted with witnesses (options dropped by PinPath; Pin routed through the public Pin); the harness sends the same requests through the real ClusterRPCAPI."
+            " Round 8b: the statement SEQUENCES of Cluster.Pin, PinPath, UnpinPath, pin(), setupPin(), Unpin() and PinUpdate() are regenerated from go/ast (which constructor builds the pin - api.PinWithOpts or api.PinCid -, "
+            "what is assigned to it, every guard with its conjuncts and every early return in source order, the case order of Unpin's switch; logging/tracing/message text dropped, local names canonical) and RUN by the Lean model (Sem.stepSem): "
+            "sem_is_model proves for ALL inputs that the regenerated sequences compute exactly the hand-written model plus pin()'s cid.Undef guard (sem_undef_cid_refused), sem_step_holds that every clause holds for what they compute; "
+            "the driver's model side of every fault-free call is this interpretation, so a dropped / reordered guard or another pin constructor changes the model. Refuted with witnesses: seeded C04g's PinPath (PinCid + options: a direct request stored recursive), "
+            "setupPin without the recursive->direct guard, Unpin without the follower guard; proved harmless: C04g's edit with the depth set from the mode.",
     "note": "Trusted: Lean kernel, hand-written model/spec, harness fakes (consensus = dsstate applying ops directly, table IPFS connector), verif_export.go. "
             "Allocation validity is delegated to C03.",
-    "technique": "Lean 4 theorem over a step model + semantic go/ast translation of the RPC layer interpreted by the model + regenerated source text of the anchored functions checked against the transcribed snapshot (rfl) + differential correspondence per API call with explicit pre-state",
+    "technique": "Lean 4 theorem over a step model + semantic go/ast translation of the RPC layer and of the statement sequences (constructors, guards, early returns) of cluster.go's pin/unpin/update functions, both interpreted by the model + regenerated source text of the anchored functions checked against the transcribed snapshot (rfl) + differential correspondence per API call with explicit pre-state",
 }
